@@ -295,6 +295,60 @@ static void op_hist(uint32_t j, rec_t *r, xrl_error **e) {
     xrl_clear_error(&slot[0]); xrl_clear_error(&slot[1]);
 }
 
+/* ---- C16: state key of the library: digest of its writable static storage (sections renamed at build time), locale, cwd, live blocks */
+#ifdef XDRV_SECTIONS
+#define SEC(n) extern char __start_##n[] __attribute__((weak)); extern char __stop_##n[] __attribute__((weak));
+SEC(xrl_ldata) SEC(xrl_lbss) SEC(xrl_ldrl) SEC(xrl_ldrol) SEC(xrl_ldr) SEC(xrl_ldro)
+SEC(xrl_tdata) SEC(xrl_tbss) SEC(xrl_tdrl) SEC(xrl_tdrol) SEC(xrl_tdr) SEC(xrl_tdro)
+static unsigned long long dg_range(unsigned long long h, const char *a, const char *b) {
+    if (!a || !b || b <= a) return h;
+    const unsigned long long *w = (const unsigned long long *)a; size_t n = (size_t)(b - a) / 8;
+    for (size_t i = 0; i < n; i++) { h ^= w[i]; h *= 0x9E3779B97F4A7C15ull; h ^= h >> 29; }
+    for (const char *p = a + n * 8; p < b; p++) { h ^= (unsigned char)*p; h *= 1099511628211ull; }
+    return h ^ (unsigned long long)(b - a);
+}
+#define DG(h, n) dg_range(h, __start_##n, __stop_##n)
+#endif
+extern long trk_live;
+static xrl_error *held_error = NULL;
+static void op_statekey(uint32_t j, rec_t *r, xrl_error **e) {
+    (void)e; int off = trk_on; trk_on = 0;
+    unsigned long long hl = 1469598103934665603ull, ht = 1469598103934665603ull; size_t bytes_l = 0, bytes_t = 0;
+#ifdef XDRV_SECTIONS
+    hl = DG(hl, xrl_ldata); hl = DG(hl, xrl_lbss); hl = DG(hl, xrl_ldrl); hl = DG(hl, xrl_ldrol); hl = DG(hl, xrl_ldr); hl = DG(hl, xrl_ldro);
+    bytes_l = (__stop_xrl_ldata - __start_xrl_ldata) + (__stop_xrl_lbss - __start_xrl_lbss);
+    if (I(0)) { ht = DG(ht, xrl_tdata); ht = DG(ht, xrl_tbss); ht = DG(ht, xrl_tdrl); ht = DG(ht, xrl_tdrol); ht = DG(ht, xrl_tdr); ht = DG(ht, xrl_tdro);
+                bytes_t = (__stop_xrl_tdata - __start_xrl_tdata) + (__stop_xrl_tbss - __start_xrl_tbss) + (__stop_xrl_tdrl - __start_xrl_tdrl); }
+#endif
+    char cwd[512]; if (!getcwd(cwd, sizeof cwd)) cwd[0] = 0;
+    blob_printf("%u\t%016llx\t%016llx\t%s\t%s\t%ld\t%zu\t%zu\n", j, hl, ht, setlocale(LC_ALL, NULL), cwd, trk_live, bytes_l, bytes_t);
+    trk_on = off;
+}
+static void op_err_hold(uint32_t j, rec_t *r, xrl_error **e) {
+    (void)e; (void)r; if (held_error) return;
+    switch (I(0)) { case 0: AtomicWeight(-1, &held_error); break; case 1: { struct compoundData *c = CompoundParser("Uu", &held_error); (void)c; } break;
+                    default: { struct compoundDataNIST *c = GetCompoundDataNISTByIndex(-1, &held_error); (void)c; } break; }
+}
+static void op_err_digest(uint32_t j, rec_t *r, xrl_error **e) {
+    (void)e; (void)j; if (!held_error) { r->flags |= F_NULLOBJ; return; }
+    r->v[0] = held_error->code; r->v[1] = (double)fnv(held_error->message ? held_error->message : "");
+}
+static void op_err_release(uint32_t j, rec_t *r, xrl_error **e) { (void)e; (void)j; (void)r; xrl_clear_error(&held_error); }
+static void op_XRayInit(uint32_t j, rec_t *r, xrl_error **e) { (void)e; (void)j; XRayInit(); r->v[0] = 1; }
+static void op_deprecated(uint32_t j, rec_t *r, xrl_error **e) {
+    (void)e;
+#pragma GCC diagnostic push
+#pragma GCC diagnostic ignored "-Wdeprecated-declarations"
+    switch (I(0)) { case 0: SetHardExit(I(1)); break; case 1: SetExitStatus(I(1)); break; case 2: SetErrorMessages(I(1)); break;
+                    case 3: r->v[0] = GetExitStatus(); break; default: r->v[0] = GetErrorMessages(); break; }
+#pragma GCC diagnostic pop
+}
+static void op_builtin_insert(uint32_t j, rec_t *r, xrl_error **e) {
+    Crystal_Struct *c = Crystal_GetCrystal("Si", NULL, NULL); if (!c) { r->flags |= F_AUX; return; }
+    free(c->name); c->name = strdup(S(0) ? S(0) : "Zz_inserted"); c->a *= 1.01;
+    r->v[0] = Crystal_AddCrystal(c, NULL, e); Crystal_Free(c);
+}
+
 const op_t optab[] = {
     { "CompoundParser", op_CompoundParser }, { "add_compound_data", op_add_compound_data },
     { "NISTByName", op_NISTByName }, { "NISTByIndex", op_NISTByIndex }, { "NISTList", op_NISTList },
@@ -305,6 +359,8 @@ const op_t optab[] = {
     { "Crystal_MakeCopy", op_Crystal_MakeCopy }, { "crystal_dump", op_crystal_dump },
     { "defcrystal", op_defcrystal }, { "clearcrystals", op_clearcrystals },
     { "SymbolToAtomicNumber", op_SymbolToAtomicNumber }, { "locale", op_locale },
+    { "statekey", op_statekey }, { "err_hold", op_err_hold }, { "err_digest", op_err_digest }, { "err_release", op_err_release },
+    { "XRayInit", op_XRayInit }, { "deprecated", op_deprecated }, { "builtin_insert", op_builtin_insert },
     { "readfile_content", op_readfile_content }, { "hist", op_hist },
     { "deepcopy_nist", op_deepcopy_nist }, { "deepcopy_radio", op_deepcopy_radio }, { "deepcopy_crystal", op_deepcopy_crystal },
 };
